@@ -190,6 +190,63 @@ pub fn run(input: &mut dyn BufRead, out: &mut dyn Write, _args: &[String]) -> R 
                     let out: Vec<Value> = rx.try_iter().map(|r| crate::m_tls::output_to(&r)).collect();
                     json!({"ok": res.is_ok(), "results": out})
                 }
+                // the parallel front end: with_config + init_pool + analyze_pcap (which dispatches every packet and then shuts the pool
+                // down); results are collected until every worker has gone
+                "tcp_par" | "http_par" | "tls_par" => {
+                    let pc = &v["parallel"];
+                    let (nw, qs, bs, to) = (pc["workers"].as_u64().unwrap_or(2) as usize, pc["queue"].as_u64().unwrap_or(100) as usize, pc["batch"].as_u64().unwrap_or(8) as usize, pc["timeout_ms"].as_u64().unwrap_or(5));
+                    fn drain<T>(rx: std::sync::mpsc::Receiver<T>, f: impl Fn(&T) -> Value) -> (Vec<Value>, bool) {
+                        let mut out = vec![];
+                        loop {
+                            match rx.recv_timeout(std::time::Duration::from_secs(10)) {
+                                Ok(r) => out.push(f(&r)),
+                                Err(std::sync::mpsc::RecvTimeoutError::Disconnected) => return (out, false),
+                                Err(std::sync::mpsc::RecvTimeoutError::Timeout) => return (out, true),
+                            }
+                        }
+                    }
+                    match krate.as_str() {
+                        "tcp_par" => {
+                            let (tx, rx) = std::sync::mpsc::channel();
+                            let mut a = huginn_net_tcp::HuginnNetTcp::with_config(if with_db { Some(Arc::clone(&db)) } else { None }, cap, nw, qs, bs, to).expect("analyzer");
+                            if let Some(f) = filt {
+                                a = a.with_filter(crate::m_filter::tcp_filter(f));
+                            }
+                            a.init_pool(tx.clone()).expect("pool");
+                            let res = a.analyze_pcap(&path, tx, None);
+                            let st = a.stats().map(|s| json!({"dispatched": s.total_dispatched, "dropped": s.total_dropped}));
+                            drop(a);
+                            let (out, hung) = drain(rx, crate::m_tcp::result_to);
+                            json!({"ok": res.is_ok(), "results": out, "hung": hung, "stats": st})
+                        }
+                        "http_par" => {
+                            let (tx, rx) = std::sync::mpsc::channel();
+                            let mut a = huginn_net_http::HuginnNetHttp::with_config(if with_db { Some(Arc::clone(&db)) } else { None }, cap, nw, qs, bs, to).expect("analyzer");
+                            if let Some(f) = filt {
+                                a = a.with_filter(crate::m_filter::http_filter(f));
+                            }
+                            a.init_pool(tx.clone()).expect("pool");
+                            let res = a.analyze_pcap(&path, tx, None);
+                            let st = a.stats().map(|s| json!({"dispatched": s.total_dispatched, "dropped": s.total_dropped}));
+                            drop(a);
+                            let (out, hung) = drain(rx, http_result_to);
+                            json!({"ok": res.is_ok(), "results": out, "hung": hung, "stats": st})
+                        }
+                        _ => {
+                            let (tx, rx) = std::sync::mpsc::channel();
+                            let mut a = huginn_net_tls::HuginnNetTls::with_config_and_max_connections(nw, qs, bs, to, cap);
+                            if let Some(f) = filt {
+                                a = a.with_filter(crate::m_filter::tls_filter(f));
+                            }
+                            a.init_pool(tx.clone()).expect("pool");
+                            let res = a.analyze_pcap(&path, tx, None);
+                            let st = a.stats().map(|s| json!({"dispatched": s.total_dispatched, "dropped": s.total_dropped}));
+                            drop(a);
+                            let (out, hung) = drain(rx, crate::m_tls::output_to);
+                            json!({"ok": res.is_ok(), "results": out, "hung": hung, "stats": st})
+                        }
+                    }
+                }
                 "uni" | "uni_direct" => {
                     let c = &v["cfg"];
                     let cfg = huginn_net::AnalysisConfig {
